@@ -92,6 +92,11 @@ fn tier_from(args: &[String]) -> String {
 
 // ---------------------------------------------------------------- worker
 
+/// One worker process. Output protocol (stdout, one JSON value per line):
+///   V {...}   a violation, printed (and flushed) as soon as it is found
+///   P {...}   progress counters, every 4096 runs
+///   S {...}   the final summary
+/// so that everything found before a crash of the process survives it.
 fn cmd_worker(args: &[String]) -> i32 {
     let prop = arg_val(args, "--prop").unwrap();
     let seed: u64 = arg_val(args, "--seed").unwrap().parse().unwrap();
@@ -109,11 +114,12 @@ fn cmd_worker(args: &[String]) -> i32 {
     let mut probes: BTreeMap<String, u64> = BTreeMap::new();
     let mut hashes: BTreeSet<u64> = BTreeSet::new();
     let mut states: BTreeSet<u64> = BTreeSet::new();
-    let mut viols: Vec<Value> = Vec::new();
+    let mut seen_sig: BTreeMap<String, u64> = BTreeMap::new();
     let mut other: BTreeMap<String, u64> = BTreeMap::new();
     let mut samples: Vec<Value> = Vec::new();
     let mut nontrivial = 0u64;
     let mut curf = cur_file.and_then(|p| std::fs::OpenOptions::new().create(true).write(true).truncate(true).open(p).ok());
+    let stdout = std::io::stdout();
     let mut i = 0u64;
     while i < count {
         if t0.elapsed().as_secs_f64() > budget_s {
@@ -136,7 +142,7 @@ fn cmd_worker(args: &[String]) -> i32 {
         }
         if s.nontrivial {
             nontrivial += 1;
-            if hashes.len() < 400_000 {
+            if hashes.len() < 150_000 {
                 hashes.insert(s.hash);
             }
             if samples.len() < 2 {
@@ -145,28 +151,37 @@ fn cmd_worker(args: &[String]) -> i32 {
                 }
             }
         }
-        if states.len() < 400_000 {
+        if states.len() < 150_000 {
             states.insert(s.state_hash);
         }
         for v in s.viols {
             if v.prop == prop || v.prop == "HARNESS" {
-                if viols.len() < 64 {
-                    viols.push(json!({"run": run, "violation": v.to_json(), "signature": v.signature(), "checked": cfg!(debug_assertions)}));
+                let sig = v.signature();
+                let n = seen_sig.entry(sig.clone()).or_insert(0);
+                *n += 1;
+                if *n == 1 {
+                    let mut l = stdout.lock();
+                    let _ = writeln!(l, "V {}", json!({"run": run, "violation": v.to_json(), "signature": sig, "checked": cfg!(debug_assertions)}));
+                    let _ = l.flush();
                 }
             } else {
                 *other.entry(v.signature()).or_insert(0) += 1;
             }
         }
         i += 1;
+        if i % 4096 == 0 {
+            let mut l = stdout.lock();
+            let _ = writeln!(l, "P {}", json!({"runs": runs, "steps": steps, "ops": opsn, "nontrivial": nontrivial, "next": start + i * stride}));
+            let _ = l.flush();
+        }
     }
     let out = json!({
         "runs": runs, "steps": steps, "ops": opsn, "faults": faults, "probes": probes, "nontrivial": nontrivial,
         "hashes": hashes.iter().collect::<Vec<_>>(), "states": states.iter().collect::<Vec<_>>(),
-        "violations": viols, "other": other, "samples": samples, "wall_s": t0.elapsed().as_secs_f64(),
+        "violation_counts": seen_sig, "other": other, "samples": samples, "wall_s": t0.elapsed().as_secs_f64(),
     });
-    let stdout = std::io::stdout();
     let mut l = stdout.lock();
-    let _ = writeln!(l, "{}", out);
+    let _ = writeln!(l, "S {}", out);
     0
 }
 
@@ -243,26 +258,6 @@ fn cmd_check(args: &[String]) -> i32 {
     let exe = std::env::current_exe().unwrap();
     let scratch = st::scratch_dir();
     let per = (total_runs + jobs - 1) / jobs;
-    let mut children = Vec::new();
-    for w in 0..jobs {
-        let cur = scratch.join(format!("w{}.cur", w));
-        let wexe = match std::env::var("RSIM_CHECKED_EXE") {
-            Ok(p) if prop == "C04" && w % 2 == 1 && std::path::Path::new(&p).exists() => std::path::PathBuf::from(p),
-            _ => exe.clone(),
-        };
-        let child = Command::new(&wexe)
-            .args(["worker", "--prop", &prop, "--seed", &seed.to_string(), "--start", &w.to_string(), "--stride", &jobs.to_string(), "--count", &per.to_string(), "--tier", &tier, "--budget", &plan.budget_s.to_string(), "--cur", cur.to_str().unwrap()])
-            .stdout(Stdio::piped())
-            .stderr(Stdio::inherit())
-            .spawn();
-        match child {
-            Ok(c) => children.push((w, c, cur)),
-            Err(e) => {
-                eprintln!("HARNESS-ERROR cannot spawn worker: {}", e);
-                return 2;
-            }
-        }
-    }
     let mut agg_runs = 0u64;
     let mut agg_steps = 0u64;
     let mut agg_ops = 0u64;
@@ -278,119 +273,210 @@ fn cmd_check(args: &[String]) -> i32 {
     let mut found_checked: BTreeSet<String> = BTreeSet::new();
     let mut harness_error = false;
     let mut harness_note_partial = false;
-    // per-run watchdog: a worker whose announced run index does not change for WATCHDOG_S seconds is killed;
-    // that is a finding at that run (non-termination), confirmed by replaying it
-    let watchdog_s = plan.watchdog_s;
-    let mut outputs: Vec<(u64, std::process::Output, std::path::PathBuf, bool)> = Vec::new();
-    {
-        use std::io::Read;
-        let mut pending: Vec<(u64, std::process::Child, std::path::PathBuf, Vec<u8>, u64, Instant, Option<std::thread::JoinHandle<Vec<u8>>>)> = Vec::new();
-        for (w, mut c, cur) in children {
-            let mut so = c.stdout.take().unwrap();
-            let jh = std::thread::spawn(move || {
-                let mut b = Vec::new();
-                let _ = so.read_to_end(&mut b);
-                b
-            });
-            pending.push((w, c, cur, Vec::new(), u64::MAX, Instant::now(), Some(jh)));
-        }
-        while !pending.is_empty() {
-            let mut i = 0;
-            while i < pending.len() {
-                let done = match pending[i].1.try_wait() {
-                    Ok(Some(_)) => true,
-                    Ok(None) => false,
-                    Err(_) => true,
-                };
-                if done {
-                    let (w, mut c, cur, _, _, _, jh) = pending.remove(i);
-                    let status = c.wait().unwrap();
-                    let stdout = jh.unwrap().join().unwrap_or_default();
-                    outputs.push((w, std::process::Output { status, stdout, stderr: Vec::new() }, cur, false));
-                    continue;
-                }
-                let now_run = std::fs::read(&pending[i].2).ok().and_then(|b| b.get(..8).map(|x| u64::from_le_bytes(x.try_into().unwrap()))).unwrap_or(u64::MAX);
-                if now_run != pending[i].4 {
-                    pending[i].4 = now_run;
-                    pending[i].5 = Instant::now();
-                } else if pending[i].5.elapsed().as_secs_f64() > watchdog_s {
-                    let (w, mut c, cur, _, _, _, jh) = pending.remove(i);
-                    let _ = c.kill();
-                    let status = c.wait().unwrap();
-                    let stdout = jh.unwrap().join().unwrap_or_default();
-                    outputs.push((w, std::process::Output { status, stdout, stderr: Vec::new() }, cur, true));
-                    continue;
-                }
-                i += 1;
+    let mut worker_deaths = 0u64;
+
+    struct Slot {
+        w: u64,
+        child: std::process::Child,
+        cur: std::path::PathBuf,
+        lines: std::sync::Arc<std::sync::Mutex<Vec<String>>>,
+        reader: Option<std::thread::JoinHandle<()>>,
+        last_run: u64,
+        last_change: Instant,
+        first_index: u64, // index (in units of stride) of the first run of this incarnation
+        remaining: u64,
+        restarts: u32,
+        checked: bool,
+    }
+    let spawn = |w: u64, first_index: u64, count: u64, restarts: u32| -> Option<Slot> {
+        let cur = scratch.join(format!("w{}.cur", w));
+        let checked = matches!(std::env::var("RSIM_CHECKED_EXE"), Ok(ref p) if prop == "C04" && w % 2 == 1 && std::path::Path::new(p).exists());
+        let wexe = if checked { std::path::PathBuf::from(std::env::var("RSIM_CHECKED_EXE").unwrap()) } else { exe.clone() };
+        let start = w + first_index * jobs;
+        let mut child = Command::new(&wexe)
+            .args(["worker", "--prop", &prop, "--seed", &seed.to_string(), "--start", &start.to_string(), "--stride", &jobs.to_string(), "--count", &count.to_string(), "--tier", &tier, "--budget", &plan.budget_s.to_string(), "--cur", cur.to_str().unwrap()])
+            .stdout(Stdio::piped())
+            .stderr(Stdio::inherit())
+            .spawn()
+            .ok()?;
+        let so = child.stdout.take()?;
+        let lines = std::sync::Arc::new(std::sync::Mutex::new(Vec::new()));
+        let l2 = lines.clone();
+        let reader = std::thread::spawn(move || {
+            use std::io::BufRead;
+            for line in std::io::BufReader::new(so).lines().map_while(Result::ok) {
+                l2.lock().unwrap().push(line);
             }
-            std::thread::sleep(std::time::Duration::from_millis(20));
+        });
+        Some(Slot { w, child, cur, lines, reader: Some(reader), last_run: u64::MAX, last_change: Instant::now(), first_index, remaining: count, restarts, checked })
+    };
+    let mut slots: Vec<Slot> = Vec::new();
+    for w in 0..jobs {
+        match spawn(w, 0, per, 0) {
+            Some(s) => slots.push(s),
+            None => {
+                eprintln!("HARNESS-ERROR cannot spawn worker {}", w);
+                return 2;
+            }
         }
     }
-    for (w, out, cur, hung) in outputs {
-        if hung {
-            let run = std::fs::read(&cur).ok().and_then(|b| b.get(..8).map(|x| u64::from_le_bytes(x.try_into().unwrap()))).unwrap_or(u64::MAX);
-            let s = format!("{}|watchdog|no_progress", prop);
-            let v = json!({"property": prop, "class": "watchdog", "detail": format!("run {} made no progress for {} s (operation does not terminate)", run, watchdog_s), "op_index": 0});
-            found.entry(s).or_insert((run, v));
-            harness_note_partial = true;
-            continue;
+    let read_cur = |p: &std::path::Path| std::fs::read(p).ok().and_then(|b| b.get(..8).map(|x| u64::from_le_bytes(x.try_into().unwrap()))).unwrap_or(u64::MAX);
+    let mut first_violation_at: Option<Instant> = None;
+    let mut stopped_early = false;
+    while !slots.is_empty() {
+        // a violation of this property has been reported by a running worker: give the batch a short grace
+        // period (other signatures), then stop it - on a broken tree workers tend to crash or hang repeatedly
+        if first_violation_at.is_none() && (!found.is_empty() || slots.iter().any(|s| s.lines.lock().unwrap().iter().any(|l| l.starts_with("V ")))) {
+            first_violation_at = Some(Instant::now());
         }
-        if !out.status.success() {
-            // the worker died: a finding at the run it had announced (memory unsafety / runaway), to be confirmed
-            let run = std::fs::read(&cur).ok().and_then(|b| b.get(..8).map(|x| u64::from_le_bytes(x.try_into().unwrap()))).unwrap_or(u64::MAX);
-            use std::os::unix::process::ExitStatusExt;
-            let sig = out.status.signal().unwrap_or(0);
-            let s = format!("{}|process_killed|signal{}", prop, sig);
-            let v = json!({"property": prop, "class": "process_killed", "detail": format!("worker process died with signal {} (exit {:?}) during run {}", sig, out.status.code(), run), "op_index": 0});
-            found.entry(s).or_insert((run, v));
-            continue;
-        }
-        let text = String::from_utf8_lossy(&out.stdout);
-        let Some(line) = text.lines().last() else {
-            eprintln!("HARNESS-ERROR worker {} printed nothing", w);
-            harness_error = true;
-            continue;
-        };
-        let Ok(j) = serde_json::from_str::<Value>(line) else {
-            eprintln!("HARNESS-ERROR worker {} printed invalid JSON", w);
-            harness_error = true;
-            continue;
-        };
-        agg_runs += j["runs"].as_u64().unwrap_or(0);
-        agg_steps += j["steps"].as_u64().unwrap_or(0);
-        agg_ops += j["ops"].as_u64().unwrap_or(0);
-        agg_nontrivial += j["nontrivial"].as_u64().unwrap_or(0);
-        for (k, v) in j["faults"].as_object().cloned().unwrap_or_default() {
-            *faults.entry(k).or_insert(0) += v.as_u64().unwrap_or(0);
-        }
-        for (k, v) in j["probes"].as_object().cloned().unwrap_or_default() {
-            *probes.entry(k).or_insert(0) += v.as_u64().unwrap_or(0);
-        }
-        for (k, v) in j["other"].as_object().cloned().unwrap_or_default() {
-            *other.entry(k).or_insert(0) += v.as_u64().unwrap_or(0);
-        }
-        for h in j["hashes"].as_array().cloned().unwrap_or_default() {
-            hashes.insert(h.as_u64().unwrap_or(0));
-        }
-        for h in j["states"].as_array().cloned().unwrap_or_default() {
-            states.insert(h.as_u64().unwrap_or(0));
-        }
-        for s in j["samples"].as_array().cloned().unwrap_or_default() {
-            if samples.len() < 3 {
-                samples.push(s);
+        if let Some(t) = first_violation_at {
+            if t.elapsed().as_secs_f64() > 8.0 && !stopped_early {
+                stopped_early = true;
+                for s in slots.iter_mut() {
+                    let _ = s.child.kill();
+                }
             }
         }
-        for v in j["violations"].as_array().cloned().unwrap_or_default() {
-            let sig = v["signature"].as_str().unwrap_or("").to_string();
-            let run = v["run"].as_u64().unwrap_or(0);
-            if v["checked"].as_bool().unwrap_or(false) && !found.contains_key(&sig) {
-                found_checked.insert(sig.clone());
+        let mut i = 0;
+        while i < slots.len() {
+            let exited = match slots[i].child.try_wait() {
+                Ok(Some(st)) => Some((st, false)),
+                Ok(None) => {
+                    let now_run = read_cur(&slots[i].cur);
+                    if now_run != slots[i].last_run {
+                        slots[i].last_run = now_run;
+                        slots[i].last_change = Instant::now();
+                        None
+                    } else if slots[i].last_change.elapsed().as_secs_f64() > plan.watchdog_s {
+                        let _ = slots[i].child.kill();
+                        Some((slots[i].child.wait().unwrap(), true))
+                    } else {
+                        None
+                    }
+                }
+                Err(_) => {
+                    harness_error = true;
+                    let _ = slots[i].child.kill();
+                    Some((slots[i].child.wait().unwrap(), false))
+                }
+            };
+            let Some((status, hung)) = exited else {
+                i += 1;
+                continue;
+            };
+            let mut slot = slots.remove(i);
+            if let Some(r) = slot.reader.take() {
+                let _ = r.join();
             }
-            let e = found.entry(sig).or_insert((run, v["violation"].clone()));
-            if run < e.0 {
-                *e = (run, v["violation"].clone());
+            let lines = std::mem::take(&mut *slot.lines.lock().unwrap());
+            let mut summary: Option<Value> = None;
+            let mut progress: Option<Value> = None;
+            for l in &lines {
+                if let Some(rest) = l.strip_prefix("V ") {
+                    if let Ok(v) = serde_json::from_str::<Value>(rest) {
+                        let sig = v["signature"].as_str().unwrap_or("").to_string();
+                        let run = v["run"].as_u64().unwrap_or(0);
+                        if v["checked"].as_bool().unwrap_or(false) && !found.contains_key(&sig) {
+                            found_checked.insert(sig.clone());
+                        }
+                        let e = found.entry(sig).or_insert((run, v["violation"].clone()));
+                        if run < e.0 {
+                            *e = (run, v["violation"].clone());
+                        }
+                    }
+                } else if let Some(rest) = l.strip_prefix("P ") {
+                    progress = serde_json::from_str::<Value>(rest).ok();
+                } else if let Some(rest) = l.strip_prefix("S ") {
+                    summary = serde_json::from_str::<Value>(rest).ok();
+                }
+            }
+            let died = !stopped_early && (hung || !status.success() || summary.is_none());
+            if stopped_early {
+                harness_note_partial = true;
+            }
+            if let Some(j) = &summary {
+                agg_runs += j["runs"].as_u64().unwrap_or(0);
+                agg_steps += j["steps"].as_u64().unwrap_or(0);
+                agg_ops += j["ops"].as_u64().unwrap_or(0);
+                agg_nontrivial += j["nontrivial"].as_u64().unwrap_or(0);
+                for (k, v) in j["faults"].as_object().cloned().unwrap_or_default() {
+                    *faults.entry(k).or_insert(0) += v.as_u64().unwrap_or(0);
+                }
+                for (k, v) in j["probes"].as_object().cloned().unwrap_or_default() {
+                    *probes.entry(k).or_insert(0) += v.as_u64().unwrap_or(0);
+                }
+                for (k, v) in j["other"].as_object().cloned().unwrap_or_default() {
+                    *other.entry(k).or_insert(0) += v.as_u64().unwrap_or(0);
+                }
+                for h in j["hashes"].as_array().cloned().unwrap_or_default() {
+                    hashes.insert(h.as_u64().unwrap_or(0));
+                }
+                for h in j["states"].as_array().cloned().unwrap_or_default() {
+                    states.insert(h.as_u64().unwrap_or(0));
+                }
+                for sm in j["samples"].as_array().cloned().unwrap_or_default() {
+                    if samples.len() < 3 {
+                        samples.push(sm);
+                    }
+                }
+            } else if let Some(pj) = &progress {
+                // the process died: keep the counters of its last progress report
+                agg_runs += pj["runs"].as_u64().unwrap_or(0);
+                agg_steps += pj["steps"].as_u64().unwrap_or(0);
+                agg_ops += pj["ops"].as_u64().unwrap_or(0);
+                agg_nontrivial += pj["nontrivial"].as_u64().unwrap_or(0);
+            }
+            if died {
+                // the worker died or hung: a finding at the run it had announced, attributed below by re-running
+                // that run in strict mode (stop at the first violation of any property)
+                worker_deaths += 1;
+                harness_note_partial = true;
+                let run = read_cur(&slot.cur);
+                use std::os::unix::process::ExitStatusExt;
+                let sig = status.signal().unwrap_or(0);
+                let strict = Command::new(if slot.checked { std::path::PathBuf::from(std::env::var("RSIM_CHECKED_EXE").unwrap()) } else { exe.clone() })
+                    .args(["digest", "--prop", &prop, "--seed", &seed.to_string(), "--start", &run.to_string(), "--count", "1", "--tier", &tier])
+                    .env("RSIM_STRICT", "1")
+                    .stdout(Stdio::piped())
+                    .stderr(Stdio::null())
+                    .spawn()
+                    .ok()
+                    .and_then(|c| wait_output_timeout(c, plan.watchdog_s + 5.0));
+                let first_other: Option<String> = strict.as_ref().and_then(|o| {
+                    let t = String::from_utf8_lossy(o);
+                    let sigs = t.split('[').nth(1).map(|x| x.split(']').next().unwrap_or("").to_string()).unwrap_or_default();
+                    let all: Vec<String> = sigs.split(',').map(|x| x.trim().to_string()).filter(|x| !x.is_empty()).collect();
+                    if all.iter().any(|x| x.starts_with(&format!("{}|", prop))) {
+                        None
+                    } else {
+                        all.into_iter().find(|x| !x.starts_with("HARNESS"))
+                    }
+                });
+                if let Some(o) = first_other {
+                    // the crash follows the violation of another property: reported there, not here
+                    *other.entry(format!("{} (then the process {} in run {})", o, if hung { "hung".to_string() } else { format!("died with signal {}", sig) }, run)).or_insert(0) += 1;
+                } else if hung {
+                    let s = format!("{}|watchdog|no_progress", prop);
+                    let v = json!({"property": prop, "class": "watchdog", "detail": format!("run {} made no progress for {} s (operation does not terminate)", run, plan.watchdog_s), "op_index": 0});
+                    found.entry(s).or_insert((run, v));
+                } else {
+                    let s = format!("{}|process_killed|signal{}", prop, sig);
+                    let v = json!({"property": prop, "class": "process_killed", "detail": format!("worker process died with signal {} (exit {:?}) during run {}", sig, status.code(), run), "op_index": 0});
+                    found.entry(s).or_insert((run, v));
+                }
+                // continue behind the run that killed the worker
+                if run != u64::MAX && slot.restarts < 8 && first_violation_at.is_none() {
+                    let done_index = (run - slot.w) / jobs + 1;
+                    let end_index = slot.first_index + slot.remaining;
+                    if done_index < end_index && t0.elapsed().as_secs_f64() < plan.budget_s {
+                        if let Some(ns) = spawn(slot.w, done_index, end_index - done_index, slot.restarts + 1) {
+                            slots.push(ns);
+                        }
+                    }
+                }
             }
         }
+        std::thread::sleep(std::time::Duration::from_millis(10));
     }
     if harness_error {
         return 2;
@@ -418,7 +504,8 @@ fn cmd_check(args: &[String]) -> i32 {
             Ok(p) if found_checked.contains(sig) => std::path::PathBuf::from(p),
             _ => exe.clone(),
         };
-        let st = if is_proc { None } else { run_timeout(Command::new(&exe).args(["minimise", "--prop", &prop, "--seed", &seed.to_string(), "--run", &run.to_string(), "--tier", &tier, "--sig", sig, "--out", &path]), 600.0) };
+        // minimisation is bounded: the first three signatures, 90 s each; the rest get seed-addressed replay files
+        let st = if is_proc || n_viol > 3 { None } else { run_timeout(Command::new(&exe).args(["minimise", "--prop", &prop, "--seed", &seed.to_string(), "--run", &run.to_string(), "--tier", &tier, "--sig", sig, "--out", &path]), 90.0) };
         let wrote = matches!(st, Some(s) if s.success()) && std::path::Path::new(&path).exists();
         if !wrote {
             // fall back to a seed-addressed replay file
@@ -472,6 +559,9 @@ fn cmd_check(args: &[String]) -> i32 {
         "other_property_signals": other,
         "known_findings_seen": known_hit,
         "workers": jobs,
+        "worker_process_deaths": worker_deaths,
+        "stopped_early_after_violation": stopped_early,
+        "distinct_counting_note": "each worker keeps at most 150000 distinct hashes; distinct_* are the size of the union and therefore lower bounds in large batches",
         "exhaustive": plan.exhaustive,
     });
     if let Some(extra) = plan.extra.as_object() {
@@ -500,6 +590,32 @@ fn cmd_check(args: &[String]) -> i32 {
         return 2;
     }
     exit
+}
+
+/// Waits for a child with piped stdout; `None` if it had to be killed after `secs`.
+fn wait_output_timeout(mut c: std::process::Child, secs: f64) -> Option<Vec<u8>> {
+    use std::io::Read;
+    let mut so = c.stdout.take()?;
+    let jh = std::thread::spawn(move || {
+        let mut b = Vec::new();
+        let _ = so.read_to_end(&mut b);
+        b
+    });
+    let t0 = Instant::now();
+    loop {
+        match c.try_wait() {
+            Ok(Some(_)) => break,
+            Ok(None) => {}
+            Err(_) => return None,
+        }
+        if t0.elapsed().as_secs_f64() > secs {
+            let _ = c.kill();
+            let _ = c.wait();
+            break;
+        }
+        std::thread::sleep(std::time::Duration::from_millis(10));
+    }
+    jh.join().ok()
 }
 
 /// Runs a command; `None` if it had to be killed after `secs`.
